@@ -19,20 +19,30 @@ Print Assumptions c09_final_section_transcribed.
    included): afterwards the write buffer is empty and the open log is exactly snapshot ++ shrinklog;
    the epilogue has cleared flag and shrinklog. *)
 Theorem c09_swap_log_exact :
-  forall mk mi b, r_shrinking (b_run b) = true -> sh_done (r_sh (b_run b)) = true ->
-    let b' := bstep mk mi final_ops b BFinal in
-    b_buf b' = [] /\ b_file b' = newfile (b_run b) /\ b_run b' = end_rewrite (b_run b).
+  forall mk mi g b, r_shrinking (b_run b) = true -> sh_done (r_sh (b_run b)) = true -> b_reset b = false ->
+    let b' := bstep mk mi final_ops g b BFinal in
+    b_buf b' = [] /\ b_file b' = newfile (b_run b) /\ b_run b' = end_rewrite (b_run b) /\ b_reset b' = false.
 Proof. exact swap_log_exact. Qed.
 Print Assumptions c09_swap_log_exact.
 
 (* The same for the operations read from the source: what a restart after the swap replays is
    snapshot ++ shrinklog and nothing else. *)
 Theorem c09_swap_log_exact_src :
-  forall mk mi b, r_shrinking (b_run b) = true -> sh_done (r_sh (b_run b)) = true ->
-    let b' := bstep mk mi final_ops_src b BFinal in
+  forall mk mi b, r_shrinking (b_run b) = true -> sh_done (r_sh (b_run b)) = true -> b_reset b = false ->
+    let b' := bstep mk mi final_ops_src final_guard_src b BFinal in
     blog b' = newfile (b_run b) /\ b_buf b' = [].
 Proof. exact swap_log_exact_src. Qed.
 Print Assumptions c09_swap_log_exact_src.
+
+(* A follower that dropped its dataset to resync with its leader while the rewrite was running
+   (followReset: nothing of it reaches the shrinklog): the final section gives up, whatever its
+   operations are; the open log stays the one the resync is writing. *)
+Theorem c09_reset_aborts :
+  forall mk mi ops b, r_shrinking (b_run b) = true -> sh_done (r_sh (b_run b)) = true -> b_reset b = true ->
+    let b' := bstep mk mi ops true b BFinal in
+    b_file b' = b_file b /\ b_buf b' = b_buf b /\ b_run b' = end_rewrite (b_run b) /\ b_reset b' = false.
+Proof. exact reset_aborts. Qed.
+Print Assumptions c09_reset_aborts.
 
 (* Buffer at the crash points: the directory is the one of c09_crash_points; past the first operation
    the buffer is empty; the file that is moved aside holds everything accepted before the swap, once. *)
@@ -44,14 +54,14 @@ Proof. exact crash_buffer. Qed.
 Print Assumptions c09_crash_buffer.
 
 (* Every schedule of writers (no RENAME: see c09_rename_refuted), rewrite steps, AOFSHRINK requests,
-   flushes and final sections — any number of rewrites, commands buffered across the swap or not —
+   flushes, follower start-overs (BReset) and final sections — any number of rewrites, commands buffered across the swap or not —
    keeps "open log ++ write buffer replays to the live dataset": a restart (after the clean
    shutdown's flush) recovers the live dataset, before, during and after a rewrite.  Partial: the
    alphabet of c09_concurrent_partial. *)
 Theorem c09_log_tracks_live_partial :
   forall mk mi s0 f0 sched,
     wf s0 -> forallb nr_cmd f0 = true -> same_data (replay f0 []) s0 -> no_rename_b sched = true ->
-    let b := brun mk mi final_ops sched (binit s0 f0) in
+    let b := brun mk mi final_ops true sched (binit s0 f0) in
     same_data (replay (blog b) []) (r_live (b_run b)).
 Proof. exact log_tracks_live. Qed.
 Print Assumptions c09_log_tracks_live_partial.
@@ -59,7 +69,7 @@ Print Assumptions c09_log_tracks_live_partial.
 Theorem c09_log_tracks_live_src_partial :
   forall mk mi s0 f0 sched,
     wf s0 -> forallb nr_cmd f0 = true -> same_data (replay f0 []) s0 -> no_rename_b sched = true ->
-    let b := brun mk mi final_ops_src sched (binit s0 f0) in
+    let b := brun mk mi final_ops_src final_guard_src sched (binit s0 f0) in
     same_data (replay (blog b) []) (r_live (b_run b)).
 Proof. exact log_tracks_live_src. Qed.
 Print Assumptions c09_log_tracks_live_src_partial.
@@ -70,12 +80,24 @@ Print Assumptions c09_log_tracks_live_src_partial.
    c/1 comes back as y instead of x.  (The harness plays this schedule on the server first.) *)
 Theorem c09_swap_without_flush_refuted :
   exists s0 f0 sched, wf s0 /\ replay f0 [] = s0 /\
-    (let b := brun maxkeys maxids final_ops sched (binit s0 f0) in
+    (let b := brun maxkeys maxids final_ops true sched (binit s0 f0) in
      replay (blog b) [] = r_live (b_run b)) /\
-    (let b := brun maxkeys maxids final_ops_noflush sched (binit s0 f0) in
+    (let b := brun maxkeys maxids final_ops_noflush true sched (binit s0 f0) in
      exists k i, lookup k i (replay (blog b) []) <> lookup k i (r_live (b_run b))).
 Proof. exact swap_without_flush_refuted. Qed.
 Print Assumptions c09_swap_without_flush_refuted.
+
+(* The final section without the guard: a server with its own data becomes a follower while its
+   rewrite is parked before the final section (BReset, then the leader's SET b 1 y); with the guard
+   the log replays to the live dataset, without it the stale snapshot is swapped in and a/1 is back. *)
+Theorem c09_reset_without_guard_refuted :
+  exists s0 f0 sched, wf s0 /\ replay f0 [] = s0 /\ no_rename_b sched = true /\
+    (let b := brun maxkeys maxids final_ops true sched (binit s0 f0) in
+     replay (blog b) [] = r_live (b_run b) /\ r_live (b_run b) <> []) /\
+    (let b := brun maxkeys maxids final_ops false sched (binit s0 f0) in
+     exists k i, lookup k i (replay (blog b) []) <> lookup k i (r_live (b_run b))).
+Proof. exact reset_without_guard_refuted. Qed.
+Print Assumptions c09_reset_without_guard_refuted.
 
 (* ex_data loaded from its own log, the concurrent schedule ex_sched with a flush after every writer,
    two writers whose commands are in the buffer at the final section, a second complete rewrite: the
@@ -85,9 +107,9 @@ Example c09_ex_buffer :
   wfb ex_data = true /\ forallb nr_cmd ex_f0 = true /\ replay ex_f0 [] = ex_data /\
   no_rename_b ex_bsched = true /\
   let pre := firstn (length ex_bsched - 44) ex_bsched in
-  let b1 := brun maxkeys maxids final_ops (firstn (length pre - 1) pre) (binit ex_data ex_f0) in
-  let b2 := brun maxkeys maxids final_ops pre (binit ex_data ex_f0) in
-  let b3 := brun maxkeys maxids final_ops ex_bsched (binit ex_data ex_f0) in
+  let b1 := brun maxkeys maxids final_ops true (firstn (length pre - 1) pre) (binit ex_data ex_f0) in
+  let b2 := brun maxkeys maxids final_ops true pre (binit ex_data ex_f0) in
+  let b3 := brun maxkeys maxids final_ops true ex_bsched (binit ex_data ex_f0) in
   length (b_buf b1) = 2%nat /\ r_shrinking (b_run b1) = true /\
   b_buf b2 = [] /\ r_shrinking (b_run b2) = false /\ b_file b2 = newfile (b_run b1) /\
   Nat.ltb (length (b_file b2)) (length (blog b1)) = true /\
